@@ -556,6 +556,7 @@ def run(ctx):
                  'run', 'natsss_eqb', cases, per_file=min(400, -(-len(cases) // 4)), defs=CORR_DEFS, nontrivial=lambda r: r[5])
     _oracle_basis(ctx, rng)
     _oracle_operand(ctx, rng)
+    _oracle_sequences(ctx, rng)
     _oracle_periodic(ctx, rng, cases_out=None)
 
 
@@ -747,6 +748,54 @@ def _oracle_operand(ctx, rng):
                              {'kind': kind, 'p': p.tolist(), 't': t.tolist(), 'operation': opname, 'element': el[kind].__name__})
 
 
+def _tables(b):
+    d = b.dofs
+    return {'N': int(b.N), 'element_dofs': np.asarray(b.element_dofs).tolist(), 'nodal_dofs': np.asarray(d.nodal_dofs).tolist(),
+            'edge_dofs': np.asarray(d.edge_dofs).tolist(), 'facet_dofs': np.asarray(d.facet_dofs).tolist(),
+            'interior_dofs': np.asarray(d.interior_dofs).tolist()}
+
+
+def _oracle_sequences(ctx, rng):
+    """several bases with DIFFERENT elements built one after the other on ONE long-lived mesh object: each must have the tables
+    it has on a fresh mesh object (nothing about an earlier basis may leak into a later one), in both orders"""
+    from skfem.assembly import Basis
+    from .. import c04_elems as EL
+    for kind in M.KINDS:
+        elems = EL.all_elements(kind)
+        wrappers = [x for x in elems if '(' in x[0] or '*' in x[0]]
+        base = [x for x in elems if x not in wrappers]
+        pairs = [(a, b) for a in wrappers for b in wrappers if a is not b]            # all ordered pairs of wrapper classes
+        extra = [(a, b) for a in base for b in base if a is not b]
+        k = ctx.n(30, 400)
+        pairs += [extra[int(j)] for j in rng.choice(len(extra), size=min(k, len(extra)), replace=False)] if extra else []
+        p, t, info = M.gen_raw(rng, kind, maxcells=4)
+        fresh = {}
+
+        def on_fresh(name, fac):
+            if name not in fresh:
+                try:
+                    fresh[name] = _tables(Basis(M.build(kind, p.copy(), t.copy()), fac(), intorder=2))
+                except Exception as ex:
+                    fresh[name] = f'{type(ex).__name__}'
+            return fresh[name]
+        for (na, fa), (nb, fb) in pairs:
+            m = M.build(kind, p.copy(), t.copy())           # the long-lived mesh object
+            ctx.count(('sequence', kind, na, nb), nontrivial=True)
+            for nm, fc in ((na, fa), (nb, fb)):
+                want = on_fresh(nm, fc)
+                try:
+                    got = _tables(Basis(m, fc(), intorder=2))
+                except Exception as ex:
+                    got = f'{type(ex).__name__}'
+                    msg = f'{type(ex).__name__}: {ex}'
+                if got != want:
+                    what = msg if isinstance(got, str) else [x for x in want if got[x] != want[x]] if isinstance(want, dict) else 'no exception'
+                    ctx.fail(f'sequence:{kind}', f'Basis({type(m).__name__}, {nm}) built after Basis(.., {na}) on the SAME mesh object differs from the '
+                             f'one on a fresh mesh object: {what}' + (f' (N = {got["N"]} instead of {want["N"]})' if isinstance(got, dict) and isinstance(want, dict) else ''),
+                             {'kind': kind, 'p': p.tolist(), 't': t.tolist(), 'first': na, 'second': nb, 'element': nm})
+                    break
+
+
 def _oracle_periodic(ctx, rng, cases_out=None):
     """tensor meshes periodic in 1, 2 and all coordinate directions (MeshLine1DG / Tri1DG / Quad1DG / Hex1DG): the numbering is
     gap-free, none unused, shared exactly along identified entities; N of a vertex-only element = number of identified node classes"""
@@ -786,9 +835,10 @@ def replay(ctx, data):
     from .. import c04_elems as EL
     from skfem.assembly import Dofs, Basis
     inp = data['input']
-    if data['key'].startswith('operand:') or data['key'].startswith('periodic:'):
+    if data['key'].startswith('operand:') or data['key'].startswith('periodic:') or data['key'].startswith('sequence:'):
         rng = np_seed(ctx, 4)
         _oracle_operand(ctx, rng)
+        _oracle_sequences(ctx, rng)
         _oracle_periodic(ctx, rng)
         return
     if 'element' not in inp or 'kind' not in inp:
